@@ -716,7 +716,7 @@ def flow_case(ctx, m, rng, solver, backend, deduction, kinds, malformed=False, s
         # sol fields are then set by Solver.solve's loop (C02); each call's parse is compared through the
         # backend-class flows (direct_api / direct_history); the loop as a whole in search (reference solver)
         ctx.corr(pre + "loop-calls", tag, len(calls) >= 1, True)
-        if not malformed and texts_ok:
+        if not malformed:  # whether or not the tie held: search reads every description of the loop itself
             ctx._c03_loops.append(dict(variables=variables, keys=keys, cons=cons, tag=ptag,
                                        texts=[c[2] for c in calls],
                                        posted=[flat_posted(x) for x in posted],
@@ -1398,15 +1398,20 @@ def search(ctx):
     rng = ctx.rng
     recs = getattr(ctx, "_c03", [])
     seen = set()
-    for rec in recs:
-        check_reply_property(ctx, rec)
-        key = (rec["tag"], rec["deduction"])
-        if key in seen:
-            continue
-        seen.add(key)
-        where = "%s:%s" % (rec["backend"], "solve" if rec["deduction"] else "find_answer")
-        check_text_property(ctx, m, rng, rec["variables"], rec["keys"], rec["cons"], rec["text"], rec["deduction"],
-                            where, rec["tag"], None if rec.get("is_state", True) else {"backend_object": True})
+
+    def from_material(which):
+        for rec in recs:
+            if rec.get("is_state", True) != which:
+                continue
+            check_reply_property(ctx, rec)
+            key = (rec["tag"], rec["deduction"])
+            if key in seen:
+                continue
+            seen.add(key)
+            where = "%s:%s" % (rec["backend"], "solve" if rec["deduction"] else "find_answer")
+            check_text_property(ctx, m, rng, rec["variables"], rec["keys"], rec["cons"], rec["text"], rec["deduction"],
+                                where, rec["tag"], None if which else {"backend_object": True})
+    from_material(True)  # runs through the Solver API first: the first violations reported are user-level ones
     # the descriptions of the refinement loop of Solver.solve(backend="sugar") recorded by correspond
     # (canned answers, programs of every size): each one must denote Solver.constraints + the clauses so far
     for rec in getattr(ctx, "_c03_loops", []):
@@ -1459,6 +1464,7 @@ def search(ctx):
         if rng.random() < 0.3:
             steps.append(dict(steps[-1]))  # the same call once more: nothing changed, same report
         ref_history(ctx, m, rng, {"kind": "ref-history", "program": exprio.show_state(solver), "steps": steps})
+    from_material(False)  # backend objects used directly (direct_history: rounds on one object)
     extra = 0
     if ctx.deep or not recs:
         extra = 1500 if ctx.thorough else 500
